@@ -33,7 +33,7 @@ theorem missing_parent_is_parked (b : Book) (v : Vertex) (rep : Nat)
       | some b' => (b', .error [.noParent]) := by
   unfold addLeafMemorized
   simp only [beq_iff_eq, hg, if_false, hn, Bool.false_eq_true, ht, hv, Bool.not_true]
-  unfold checkParents
+  unfold addLeafLocked checkParents
   simp only [hp]
   cases b.park v rep <;> rfl
 
